@@ -245,13 +245,22 @@ func RefusedBuildLeaksFlags(w *World, a *Admin) bool {
 	if t == nil || len(t.Rows) == 0 {
 		return false
 	}
-	newKey := false
+	newKey, badTarget := false, false
 	for _, ix := range a.Idx {
-		if ix.Mode == 'k' && t.findIndex(ix.Cols) < 0 {
+		if t.findIndex(ix.Cols) >= 0 {
+			continue
+		}
+		if ix.Mode == 'k' {
 			newKey = true
 		}
+		if ix.Fk != nil { // the build also fails late when the target is missing
+			tt := w.Tables[ix.Fk.Table]
+			if tt == nil || tt.findIndex(ix.Fk.Cols) < 0 {
+				badTarget = true
+			}
+		}
 	}
-	return newKey && w.newIndexViolated(t, a, a.Kind == "ensure")
+	return newKey && (badTarget || w.newIndexViolated(t, a, a.Kind == "ensure"))
 }
 
 // AlterDropKeyInsideUnique reports whether the request is an "alter T drop
